@@ -13,6 +13,7 @@ import (
 	"sort"
 	"strconv"
 	"strings"
+	"sync"
 	"time"
 
 	"diagonal.works/b6"
@@ -435,6 +436,12 @@ func ObserveFeature(w b6.World, name string, keys []string, problems *[]string) 
 }
 
 func featureNames(fs b6.Features) []string {
+	return featureNamesChecked(fs, nil, nil, "")
+}
+
+// featureNamesChecked also compares every returned feature OBJECT with what the same world's FindFeatureByID
+// returns for its ID (tags, and the geometry the object resolves): a search result is the feature, not only its ID.
+func featureNamesChecked(fs b6.Features, w b6.World, problems *[]string, what string) []string {
 	out := []string{}
 	for fs.Next() {
 		id := fs.FeatureID()
@@ -444,9 +451,74 @@ func featureNames(fs b6.Features) []string {
 			out = append(out, Name(id)+"!="+Name(f.FeatureID()))
 		} else {
 			out = append(out, Name(id))
+			if w != nil {
+				sameAsLookup(w, f, problems, what)
+			}
 		}
 	}
 	return out
+}
+
+// describe renders what a feature object says about itself: its tags and the geometry it resolves.
+func describe(f b6.Feature) (tags string, geom string) {
+	var ts []string
+	for _, t := range f.AllTags() {
+		if t.Key == b6.PointTag || t.Key == b6.PathTag {
+			continue
+		}
+		ts = append(ts, t.Key+"="+fmt.Sprint(t.Value))
+	}
+	sort.Strings(ts)
+	tags = strings.Join(ts, " ")
+	var g []string
+	switch f.FeatureID().Type {
+	case b6.FeatureTypePoint:
+		if p, ok := f.(b6.PhysicalFeature); ok {
+			g = append(g, strconv.Itoa(VertexOf(s2.LatLngFromPoint(p.Point()))))
+		}
+	case b6.FeatureTypePath:
+		if p, ok := f.(b6.PhysicalFeature); ok {
+			for i := 0; i < p.GeometryLen(); i++ {
+				g = append(g, strconv.Itoa(VertexOf(s2.LatLngFromPoint(p.PointAt(i)))))
+			}
+		}
+	case b6.FeatureTypeArea:
+		if a, ok := f.(b6.AreaFeature); ok {
+			for i := 0; i < a.Len(); i++ {
+				poly := a.Polygon(i)
+				if poly == nil {
+					g = append(g, "nil")
+					continue
+				}
+				for j := 0; j < poly.NumLoops(); j++ {
+					for _, pt := range poly.Loop(j).Vertices() {
+						g = append(g, strconv.Itoa(VertexOf(s2.LatLngFromPoint(pt))))
+					}
+					g = append(g, "|")
+				}
+			}
+		}
+	}
+	return tags, strings.Join(g, ",")
+}
+
+func sameAsLookup(w b6.World, f b6.Feature, problems *[]string, what string) {
+	guard(problems, "comparing a "+what+" with the lookup of "+Name(f.FeatureID()), func() {
+		l := w.FindFeatureByID(f.FeatureID())
+		kind := strings.ToLower(f.FeatureID().Type.String())
+		if l == nil {
+			*problems = append(*problems, fmt.Sprintf("%s not-found-by-lookup %s: %s is returned but FindFeatureByID gives nil", what, kind, Name(f.FeatureID())))
+			return
+		}
+		t1, g1 := describe(f)
+		t2, g2 := describe(l)
+		if t1 != t2 {
+			*problems = append(*problems, fmt.Sprintf("%s differs-from-lookup %s.tags: %s has tags [%s], FindFeatureByID in the same world [%s]", what, kind, Name(f.FeatureID()), t1, t2))
+		}
+		if g1 != g2 {
+			*problems = append(*problems, fmt.Sprintf("%s differs-from-lookup %s.geometry: %s resolves to vertices [%s], FindFeatureByID in the same world to [%s]", what, kind, Name(f.FeatureID()), g1, g2))
+		}
+	})
 }
 
 // Observe projects the world onto the observation for the given probe names.
@@ -460,7 +532,7 @@ func Observe(w b6.World, names []string, o Options) Observation {
 		qn, q := qn, q
 		obs.Search[qn] = []string{}
 		guard(&obs.Problems, "FindFeatures "+qn, func() {
-			obs.Search[qn] = featureNames(w.FindFeatures(q.ToB6()))
+			obs.Search[qn] = featureNamesChecked(w.FindFeatures(q.ToB6()), w, &obs.Problems, "search-result")
 		})
 	}
 	if o.Each {
@@ -478,8 +550,16 @@ func Observe(w b6.World, names []string, o Options) Observation {
 				}
 				done <- all
 			}()
+			var pmu sync.Mutex
 			err := w.EachFeature(func(f b6.Feature, goroutine int) error {
 				ch <- Name(f.FeatureID())
+				var ps []string
+				sameAsLookup(w, f, &ps, "enumerated-feature")
+				if len(ps) > 0 {
+					pmu.Lock()
+					obs.Problems = append(obs.Problems, ps...)
+					pmu.Unlock()
+				}
 				return nil
 			}, &b6.EachFeatureOptions{Goroutines: cores})
 			close(ch)
